@@ -161,10 +161,16 @@ def must_refuse(typ, v):
 def list_elements(typ):
     """One element a caller puts into a list-valued attribute."""
     if typ == "PortLines":
-        return st.one_of(port_lines(), port_lines(), st.integers(1, 65535))     # docs: conf.SOCKSPort = [9050, 1337]
+        # docs: conf.SOCKSPort = [9050, 1337]; 0 (= "off") is as much a port number as any other
+        return st.one_of(port_lines(), st.integers(0, 65535), st.sampled_from([0, 0, 9050]))
     if typ == "LineList":
         return line_values()
+    if typ == "CommaList":
+        return st.one_of(comma_items(), comma_items(), st.sampled_from([0, 80, 443, 8080]))    # port lists given as numbers
     return comma_items()
+
+
+NON_ASCII_VALUES = ["J\u00fcrgen <j at example dot org>", "\u5317\u4eac relay", "/var/lib/tor-\u00e9t\u00e9", "na\u00efve"]
 
 
 # ---------------------------------------------------------------------------- option tables
